@@ -61,4 +61,19 @@ def selectTle (dates : List Int) (s : Int) (threshMs : Rat) : TleResult :=
     let i := chooseIdx dates s
     if ((absI (s - dates.getD i 0) : Int) : Rat) > threshMs then .noTleData else .chosen i
 
+/-- The reader remembers the element set it has selected (`self.tle_lines`): only a SUCCESSFUL selection is stored;
+a query that ends in `NoTLEData` or `IndexError` leaves nothing behind. -/
+def queryTle (dates : List Int) (s : Int) (threshMs : Rat) (cache : Option Nat) : Option Nat × TleResult :=
+  match cache with
+  | some i => (some i, .chosen i)
+  | none =>
+    match selectTle dates s threshMs with
+    | .chosen i => (some i, .chosen i)
+    | r => (none, r)
+
+/-- `k` queries one after the other on one reader -/
+def queryMany (dates : List Int) (s : Int) (threshMs : Rat) : Nat → Option Nat → List TleResult
+  | 0, _ => []
+  | k + 1, c => (queryTle dates s threshMs c).2 :: queryMany dates s threshMs k (queryTle dates s threshMs c).1
+
 end PygacModel
